@@ -48,3 +48,21 @@ def float_is_zero(v):
 
 def msg_is_default(v):
     return v == type(v)()
+
+
+# constructors (symbolic reading: PyObj constructors)
+def mk_int(x): return x
+def mk_bool(x): return bool(x)
+def mk_bytes(x): return bytes(x)
+def mk_str(x): return x
+
+
+def mk_enum(i, x):
+    raise NotImplementedError("enum values need the field's class; native callers use the class directly")
+
+
+def EMPTYSEQ(): return []
+def SEQ1(x): return [x]
+
+
+def is_pint(v): return isinstance(v, int) and not isinstance(v, bool)
